@@ -19,6 +19,20 @@ CLAIMS = {
              'entry / sticky streaming state after a failed encode. Decides code shape, not runtime ack histories.',
         note='Not decided: contents of the returned acknowledgement, id wrap-around histories as such (only the cell invariant), liveness.',
         ref='DESIGN.md section 5 C06'),
+    'C09': dict(
+        technique='symbolic size/emission equivalence of every (encoded_size, encode) pair by path enumeration over MIR (linear forms over length atoms) + CFG sibling rules for the limit-dependent helpers + extraction-and-boundary-evaluation of the varint tables + must-pass/dominance rules on the codec (static analysis)',
+        text='Structural part. For all 30 (size function, emitter) pairs (every Encode/EncodeLtd impl, the property helpers, ack_props, the v3 functions) the returned size and the bytes '
+             'appended on every success path are extracted from MIR as linear forms over len()/value/varint-length atoms (loops and folds summarised per item) and are equal in every '
+             'consistent combination of branch conditions over the packet fields; frame-level emitters write type byte + Remaining Length taken from the size argument + exactly size bytes '
+             '(PUBLISH: minus the payload appended by the codec); sizes handed to nested limited encoders equal the nested computed size; unsigned subtractions on success paths are '
+             'non-negative forms. The two optional-property walkers agree (same per-item size, first property that does not fit ends the walk, whole properties, exact reason-string '
+             'decision). var_int_len tables / var_int_len_from_size / write_variable_length agree at all 1..4-byte boundaries. Both codecs pass encoded_size of the same packet as size, '
+             'compare it with the limit first and fail with OverMaxPacketSize before any write; the limit only reaches reduce_limit and the diagnostics sizers, whose budget is the limit '
+             'minus everything else; subtractions involving the limit are guarded. Under NO_PROBLEM_INFO only reason_string/user properties are cleared, for all six acknowledgement types, '
+             'and the flag is !CONNECT.request_problem_info. Builder size() functions use the codec size functions. failed-encode-appends-nothing = C08.validate-before-write instances.',
+        note='Not decided: equality of written bytes and size for concrete values beyond what the symbolic forms imply (the atoms abstract string contents), overflow of usize sums of '
+             'in-memory lengths, behaviour of dependencies (BytePages). Known findings D8 (error after partial write) and D23 (limits 1..=5 keep no header allowance).',
+        ref='DESIGN.md section 5 C09'),
     'C11': dict(
         technique='MIR pairing / must-pass-through rules on the in-flight id set (static analysis)',
         text='Static pairing rules over the four dispatchers: insert of the packet id dominates every handler/control invocation (or the packet has no id); the '
